@@ -2,6 +2,7 @@ import MCHap.Model.CallMoves
 import MCHap.Properties.C04
 import MCHap.Properties.C05
 import MCHap.Proofs.MH
+import MCHap.Proofs.Compose
 
 /-!
 # C02 — the `mchap call` sampler is stationary at the posterior `call-exact` enumerates
@@ -258,5 +259,22 @@ example :
     (gibbsProbs P [0, 0, 2, 1] 1).sum = 1 ∧ (mhProbs P [0, 0, 2, 1] 1).sum = 1 ∧
     0 < callW P [0, 0, 2, 1] ∧ callW P (sortAlleles [0, 0, 2, 1]) = callW P [0, 0, 2, 1] := by
   decide +kernel
+
+/-! ### the compound step and the run of the call sampler -/
+
+/-- `compound_step` of the call sampler: the `ploidy` allele copies are updated in a shuffled order, each by the Gibbs or
+    Metropolis–Hastings kernel of that copy.  If each of those kernels leaves `π` invariant (`gibbs_reversible`, `mh_db` give
+    detailed balance, hence invariance by `C01.invariant_of_db`), so does the compound step. -/
+theorem call_compound_step_invariant {S : Type} [Fintype S] [DecidableEq S] (π : S → ℝ) (ploidy : ℕ)
+    (K : Fin ploidy → S → S → ℝ) (h : ∀ k, C01.Invariant π (K k)) :
+    C01.Invariant π (fun s s' => ∑ σ : Equiv.Perm (Fin ploidy),
+      (1 / (ploidy.factorial : ℝ)) * Compose.sweepOf K ((List.finRange ploidy).map σ) s s') :=
+  Compose.compound_step_invariant π ploidy K h
+
+/-- `mcmc_sampler`: `n_steps` compound steps in a row leave `π` invariant -/
+theorem call_sampler_invariant {S : Type} [Fintype S] [DecidableEq S] (π : S → ℝ) (K : S → S → ℝ)
+    (h : C01.Invariant π K) (nSteps : ℕ) :
+    C01.Invariant π (Compose.sweepOf (fun _ : Unit => K) (List.replicate nSteps ())) :=
+  Compose.invariant_iterate π K h nSteps
 
 end MCHap.C02
